@@ -742,6 +742,7 @@ pub fn run(tier_name: &str, seed: u64) -> i32 {
         let scratch = Scratch::new(&format!("s{shard}"));
         let mut seen = std::collections::BTreeSet::new();
         for base in 0..t.bases_per_shard {
+            report::progress(shard, base);
             let mut w = Rng::derive(seed, shard as u64, base as u64, "c19.workload");
             let pa = gen_params(&mut w);
             let pb = gen_params(&mut w);
